@@ -1,9 +1,9 @@
 (* C16 — handler.Positional, Args, Obj: positional and keyed decoding are exact.
    This file only restates the property theorems; the model is hand/Handler.v, the proofs are in
-   hand/HandlerProofs.v, hand/HandlerExtra.v and hand/PosElem.v.  encoding/json is not modelled:
+   hand/HandlerProofs.v, hand/HandlerExtra.v, hand/PosElem.v and hand/HandlerMore.v.  encoding/json is not modelled:
    `decode`, `zero`, `decode_elt`, `decode_into`, `encode` are universally quantified oracles. *)
 From Coq Require Import List NArith Bool.
-From JV Require Import Bytes Handler HandlerProofs HandlerExtra PosElem.
+From JV Require Import Bytes Handler HandlerProofs HandlerExtra PosElem HandlerMore.
 Import ListNotations.
 
 (* Positional(func(ctx, X1..Xn), names), n >= 1, usable names.  Under the documented contract
@@ -32,6 +32,40 @@ Theorem c16_positional_accepts_exactly :
     end.
 Proof. exact positional_elementwise. Qed.
 Print Assumptions c16_positional_accepts_exactly.
+
+(* ONE call of a Positional handler wrapping f (`handle`: the inputs of all calls of f, and the
+   handler's return value): under the same contract f is called exactly once, with the values
+   pos_args spells out (zero values for absent/null params, element i decoded into Xi for an
+   array, the keyed values for an object), and the handler returns decode_out of the result and
+   error of that call; or f is not called and the handler returns InvalidParams. *)
+Theorem c16_handle_once :
+  forall (decode : ty -> bool -> pvalue -> option value) (zero : ty -> value)
+         (decode_elt : ty -> elt -> option value) (R E : Type) xs outs names fi p
+         (f : call_input -> R * option E),
+    struct_contract decode zero decode_elt -> zero_contract zero ->
+    xs <> [] -> usable_names names = true ->
+    positional (FFunc (TCtx :: xs) false outs) names = Ok fi ->
+    plain_params names p = true ->
+    handle decode zero fi p f =
+    match pos_args decode_elt zero names xs p with
+    | Some args => ([InArgs args], RReturn (decode_out fi (fst (f (InArgs args))) (snd (f (InArgs args)))))
+    | None => ([], RInvalidParams)
+    end.
+Proof. exact (fun decode zero decode_elt R E => @positional_handle decode zero decode_elt R E). Qed.
+Print Assumptions c16_handle_once.
+
+(* ... and with no assumption on the oracle, for all name lists and all params: one call with
+   decoded arguments (never the request), or no call and InvalidParams *)
+Theorem c16_handle_shape :
+  forall (decode : ty -> bool -> pvalue -> option value) (zero : ty -> value) (R E : Type)
+         xs outs names fi p (f : call_input -> R * option E),
+    xs <> [] -> positional (FFunc (TCtx :: xs) false outs) names = Ok fi ->
+    (exists args, handle decode zero fi p f =
+       ([InArgs args], RReturn (decode_out fi (fst (f (InArgs args))) (snd (f (InArgs args))))) /\
+       wrap decode zero fi p = OCall args) \/
+    (handle decode zero fi p f = ([], RInvalidParams) /\ wrap decode zero fi p = OInvalidParams).
+Proof. exact (fun decode zero R E => @positional_handle_shape decode zero R E). Qed.
+Print Assumptions c16_handle_shape.
 
 (* what decode_each and fill say *)
 Theorem c16_array_exact_length :
